@@ -22,7 +22,11 @@ func genC11(t *rapid.T) *Scenario {
 	}
 	n := rapid.IntRange(3, 14).Draw(t, "nsteps")
 	for i := 0; i < n; i++ {
-		switch rapid.IntRange(0, 9).Draw(t, "kind") {
+		switch rapid.IntRange(0, 10).Draw(t, "kind") {
+		case 10:
+			// the API server answers one of the next pass's calls (dry runs come early) with an error: plain failure, lost
+			// response, 500, 429, 503 or timeout status
+			sc.Steps = append(sc.Steps, Step{Op: "fault", I: rapid.IntRange(0, 9).Draw(t, "ncall"), J: rapid.SampledFrom([]int{0, 1, 4, 5, 6, 7}).Draw(t, "fkind")}, GenReconcile(t, ctrls))
 		case 0, 1, 2, 3, 4, 5:
 			sc.Steps = append(sc.Steps, GenReconcile(t, ctrls))
 		case 6:
